@@ -11,7 +11,7 @@ BOUNDS = {
     "thorough": "4 keys (a,1),(a,2),(b,1),(b,2), 3 wakes with fault bits (<= 12 write attempts), then fault-free wakes",
 }
 REALISED = []
-STUBS = ["RecTransport whose write raises TransportFailedError when the symbolic fault bit of that attempt is set", "symbolic maps", "__repr__ -> constant"]
+STUBS = ["RecTransport whose write raises TransportFailedError or the base TransportError (symbolic choice) when the symbolic fault bit of that attempt is set", "symbolic maps", "__repr__ -> constant"]
 ASSUMPTIONS = ["a failing transport write raises a TransportError subclass (the Transport contract)", "child ids, value type and payloads are concrete"]
 MUST_REACH = ["faulted", "clean"]
 
@@ -59,6 +59,8 @@ def sym_flush(inp, part):
         f = inp.bool("fault%d" % i)
         if f:
             state["faults_this_wake"] += 1
+            # either the base TransportError or the TransportFailedError subclass
+            return TransportError if inp.bool("fault%d_base" % i) else True
         return f
 
     def invariant(when):
